@@ -16,6 +16,7 @@ semantics, plus:
 """
 
 import random
+import functools
 import threading
 import time
 
@@ -41,12 +42,14 @@ MIN_COUNTERS = {
               'park_points_reached': 25, 'raising_tasks': 20,
               'clear_cases': 6, 'lock_owned_checks': 1500, 'move_cases': 6,
               'moved_while_pending': 20, 'tempo_changes_from_plain_thread': 1000,
-              'map_change_cases': 12, 'cmdperiod_in_task_cases': 4},
+              'map_change_cases': 12, 'cmdperiod_in_task_cases': 4,
+              'task_errors_logged': 100},
     'thorough': {'wakes_checked': 50000, 'order_pairs_checked': 5000,
                  'park_points_reached': 150, 'raising_tasks': 500,
                  'clear_cases': 40, 'lock_owned_checks': 50000, 'move_cases': 40,
                  'moved_while_pending': 500, 'tempo_changes_from_plain_thread': 20000,
-                 'map_change_cases': 300, 'cmdperiod_in_task_cases': 20},
+                 'map_change_cases': 300, 'cmdperiod_in_task_cases': 20,
+                 'task_errors_logged': 1500},
 }
 
 LATE_STRESS = 6.0
@@ -129,6 +132,23 @@ class H:
         from vf.lockmon import LockMon
         self.lockmon = LockMon().install()
         self.watch_thread_deaths()
+        # "an exception raised by one task is logged": the records of the clocks'
+        # logger are counted by exception class (the worker silences the library's
+        # log output, so the level of this logger is set here)
+        import logging
+        self.raised = {}
+        self.logged = {}
+        h = self
+
+        class _Count(logging.Handler):
+            def emit(self, record):
+                et = record.exc_info[0].__name__ if record.exc_info and record.exc_info[0] \
+                    else 'no-exception-info'
+                h.logged[et] = h.logged.get(et, 0) + 1
+        lg = logging.getLogger('sc3.base.clock')
+        lg.setLevel(logging.ERROR)
+        lg.propagate = False
+        lg.addHandler(_Count())
 
     def start_hang_monitor(self, acc, spec, limit=12.0):
         """A scheduling call (sched / sched_abs / play / tempo change) that does not
@@ -197,7 +217,19 @@ class H:
                 prev(args)
         threading.excepthook = hook
 
+    def report_logged(self, acc):
+        time.sleep(0.05)
+        for et, n in sorted(self.raised.items()):
+            acc.count('raising_wakeups_of_functions_and_objects', n)
+            got = self.logged.get(et, 0)
+            acc.count('task_errors_logged', min(got, n))
+            if got < n:
+                acc.violation(f'C08/raising-task-not-logged/{et}',
+                              {'raised': n, 'logged_with_that_exception': got,
+                               'all_logged': dict(self.logged)})
+
     def report_lockmon(self, acc):
+        self.report_logged(acc)
         for ck, exc, site, val in getattr(self, 'deaths', [])[:5]:
             acc.violation(f'C08/clock-thread-killed-by-exception/{ck}/{exc}@{site}',
                           {'thread': ck, 'exception': val})
@@ -262,6 +294,8 @@ class H:
                      threading.current_thread().name, clock is rec['clock'])
         plan = rec['plan']
         step = plan[k] if k < len(plan) else {'ret': None}
+        if step.get('raise') and rec['kind'] in ('tk', 'fn', 'defer'):
+            self.raised[step['raise']] = self.raised.get(step['raise'], 0) + 1
         for ch in step.get('children', ()):
             self.sched_from_task(rec, k, logical, ch)
         if step.get('clear'):
@@ -293,7 +327,10 @@ class H:
                     # them look like the library's own (a `func` attribute),
                     # half are plain user objects
                     if rec['tid'] % 2 == 0:
-                        self.func = self.body
+                        # (a bound method, a partial or a callable object: users wrap
+                        # such callables by hand)
+                        self.func = [self.body, functools.partial(self.body),
+                                     _CallableObject()][(rec['tid'] // 2) % 3]
                     self._clock = None
 
                 def body(self):
@@ -419,6 +456,11 @@ class H:
 # ---------------------------------------------------------------------------
 # offline analysis
 # ---------------------------------------------------------------------------
+
+class _CallableObject:
+    def __call__(self, *a):
+        pass
+
 
 def _is_num(x):
     # what the clocks take for a delta: a finite number, not a bool ('INF' in a
